@@ -180,7 +180,7 @@ func (x *Exec) inline(fr *Frame, st *State, callee *ssa.Function, args []Val, bi
 func (x *Exec) havocCall(fr *Frame, st *State, sig *types.Signature, why string, ins ssa.Instruction, k kont) {
 	x.note("havoc: " + why + " (whole heap forgotten, results unconstrained)")
 	x.checkTypeInvs(fr, st, "before call")
-	st.dirty = nil
+	st.dirty = st.dirtyKeep
 	st.invSeen = map[string]bool{}
 	for _, v := range fr.vals {
 		_ = v
@@ -449,7 +449,7 @@ func (x *Exec) invoke(fr *Frame, st *State, cc *ssa.CallCommon, recv Val, args [
 		name = fr.fn.Name() + ":" + name
 	}
 	nn := mkNot(mkEq(it.T, tNilI))
-	x.oblige(st, "nil", name, x.c.Props, nn, "method call on nil interface: "+cc.Method.Name(), posStr(x.prog.fset, ins.Pos()))
+	x.oblige(st, "nil", name, x.safetyProps(), nn, "method call on nil interface: "+cc.Method.Name(), posStr(x.prog.fset, ins.Pos()))
 	st.assume(nn)
 	key := "iface:"
 	if n, ok := cc.Value.Type().(*types.Named); ok {
@@ -494,7 +494,7 @@ func (x *Exec) applyContract(fr *Frame, st *State, c *Contract, sig *types.Signa
 	if c.Recv != "" && !c.Iface && c.Opts["nilrecv"] == "" {
 		if _, isPtr := args[0].GoType().Underlying().(*types.Pointer); isPtr {
 			g := x.nonNil(args[0])
-			x.oblige(st, "nil", fmt.Sprintf("%snil-recv:%s@%d", pfx, short, site), x.c.Props, g, "receiver of "+short+" is non-nil", posStr(x.prog.fset, ins.Pos()))
+			x.oblige(st, "nil", fmt.Sprintf("%snil-recv:%s@%d", pfx, short, site), x.safetyProps(), g, "receiver of "+short+" is non-nil", posStr(x.prog.fset, ins.Pos()))
 			st.assume(g)
 		}
 	}
@@ -510,7 +510,7 @@ func (x *Exec) applyContract(fr *Frame, st *State, c *Contract, sig *types.Signa
 		}
 		props := rq.Props
 		if len(props) == 0 {
-			props = x.c.Props
+			props = x.safetyProps()
 		}
 		x.oblige(st, "pre", fmt.Sprintf("%spre:%s@%d#%s", pfx, short, site, strings.TrimPrefix(rq.Name(), "requires#")), props, t, "precondition of "+short+": "+rq.Text, posStr(x.prog.fset, ins.Pos()))
 		st.assume(t)
@@ -518,12 +518,12 @@ func (x *Exec) applyContract(fr *Frame, st *State, c *Contract, sig *types.Signa
 	if fr.depth == 0 {
 		x.propagationBeforeCall(st, short, site, posStr(x.prog.fset, ins.Pos()))
 	}
-	x.checkTypeInvs(fr, st, "before call of "+short)
-	st.dirty = nil
-	st.invSeen = map[string]bool{}
 	for _, a := range args {
 		x.escape(st, a, true)
 	}
+	x.checkTypeInvs(fr, st, "before call of "+short)
+	st.dirty = st.dirtyKeep
+	st.invSeen = map[string]bool{}
 	pre := st.clone()
 	pre.noSide = true
 	// frame
